@@ -194,8 +194,9 @@ Definition lookup1 (c : creds) (h : host) (d : N) (n : name) : res N :=
         if negb (may c dv MAY_X) then Err EACCES
         else if is_dot n then Ok d
         else if is_dotdot n then Ok par
-        else if NAME_MAX <? len n then Err ENAMETOOLONG
+        (* a removed directory answers ENOENT before the file system looks at the name (its length included) *)
         else if dead then Err ENOENT
+        else if NAME_MAX <? len n then Err ENAMETOOLONG
         else match ent_find n ents with Some i => Ok i | None => Err ENOENT end
     | _ => Err ENOTDIR
     end
@@ -213,8 +214,9 @@ Definition create_check (c : creds) (h : host) (d : N) (n : name) : res inode :=
     | KDir ents par dead =>
         if negb (may c dv MAY_X) then Err EACCES
         else if is_dot n || is_dotdot n then Err EEXIST
-        else if NAME_MAX <? len n then Err ENAMETOOLONG
+        (* a removed directory answers ENOENT before the file system looks at the name (its length included) *)
         else if dead then Err ENOENT
+        else if NAME_MAX <? len n then Err ENAMETOOLONG
         else match ent_find n ents with
              | Some _ => Err EEXIST
              | None => if may c dv MAY_W then Ok dv else Err EACCES
@@ -349,8 +351,9 @@ Definition remove_check (c : creds) (h : host) (d : N) (n : name) (dots : N) : r
     | KDir ents par dead =>
         if negb (may c dv MAY_X) then Err EACCES
         else if is_dot n || is_dotdot n then Err dots
-        else if NAME_MAX <? len n then Err ENAMETOOLONG
+        (* a removed directory answers ENOENT before the file system looks at the name (its length included) *)
         else if dead then Err ENOENT
+        else if NAME_MAX <? len n then Err ENAMETOOLONG
         else match ent_find n ents with
              | None => Err ENOENT
              | Some i => if may c dv MAY_W then Ok (dv, i) else Err EACCES
@@ -417,11 +420,13 @@ Definition sys_renameat2 (c : creds) (h : host) (od : N) (on : name) (nd : N) (n
       if negb (may c odv MAY_X) || negb (may c ndv MAY_X) then (Err EACCES, h)
       else if is_dot on || is_dotdot on then (Err EBUSY, h)
       else if is_dot nn || is_dotdot nn then (Err (if has flags RENAME_NOREPLACE then EEXIST else EBUSY), h)
+      else if odead then (Err ENOENT, h)
       else if NAME_MAX <? len on then (Err ENAMETOOLONG, h)
       else match (if odead then None else ent_find on oents) with
       | None => (Err ENOENT, h)
       | Some src =>
-        if NAME_MAX <? len nn then (Err ENAMETOOLONG, h)
+        if ndead then (Err ENOENT, h)
+        else if NAME_MAX <? len nn then (Err ENAMETOOLONG, h)
         else match get h src with
         | None => (Err ENOENT, h)
         | Some sv =>
